@@ -24,9 +24,9 @@ Scalar(z) == [shape |-> <<1, 1>>, vals |-> <<z>>]
 Lat(L, bc, mps, t, cells) == [name |-> "Chain", Lx |-> L, Ly |-> 1, bcx |-> bc, bcy |-> "open", mps |-> mps, uc |-> <<t>>, cells |-> cells,
                               shift |-> 0]
 ConfigsQuick == {Lat(4, "open", "finite", "spin", 1), Lat(3, "open", "finite", "fermion", 1),
-                 Lat(2, "periodic", "infinite", "spin", 2), Lat(1, "periodic", "infinite", "spin", 4),
-                 \* 64 states: only pairs, sums and the equality / Hermiticity tests (Big below)
-                 Lat(2, "periodic", "infinite", "spin", 3)}
+                 Lat(2, "periodic", "infinite", "spin", 2), Lat(1, "periodic", "infinite", "spin", 4)}
+\* 64 states: only pairs, sums and the equality / Hermiticity tests (Big below); run separately
+ConfigsBig == {Lat(2, "periodic", "infinite", "spin", 3)}
 ConfigsOne == {Lat(3, "open", "finite", "fermion", 1)}
 ConfigsTwo == {Lat(3, "open", "finite", "spin", 1), Lat(2, "periodic", "infinite", "spin", 2)}
 ConfigsFull == ConfigsQuick \cup {Lat(3, "open", "finite", "spin", 1), Lat(4, "periodic", "finite", "fermion", 1),
@@ -165,7 +165,8 @@ PairOps(c) ==
                  ELSE Coup(z, "Bd", "B", far, TRUE)
         nonh == IF t = "spin" THEN <<Coup(<<1, 2>>, "Sp", "Sm", 1, FALSE)>> ELSE IF t = "fermion" THEN <<Coup(<<0, 1>>, "Cd", "C", far, FALSE)>>
                 ELSE <<Coup(<<0, 1>>, "Bd", "B", 1, FALSE)>>
-    IN {base, base \o <<lr(<<1, 0>>)>>, base \o <<lr(<<2, 0>>)>>, nonh}
+    IN IF Infinite(c) /\ c.cells >= 3 THEN {base, base \o <<lr(<<1, 0>>)>>}
+       ELSE {base, base \o <<lr(<<1, 0>>)>>, base \o <<lr(<<2, 0>>)>>, nonh}
 MakePair == cfg # NoCfg /\ A = Empty /\ B = Empty /\ \E da, db \in PairOps(cfg), mkB \in {"all", "wt"} :
     Step([op |-> "make_pair", declsA |-> da, declsB |-> db, markersB |-> mkB],
          Slot(da, OpOf(cfg, da), "all", TRUE, MaxTermRange(cfg, da)), Slot(db, OpOf(cfg, db), mkB, mkB = "all", MaxTermRange(cfg, db)))
@@ -262,15 +263,14 @@ PrefStrings(c) == IF c.uc[1] = "spin"
                   ELSE {<<"Bd", "B">>, <<"B", "Bd">>}
 StringOp(c, i, ops) == DenseOfTerms(TypesOf(c), <<[c |-> GOne, raw |-> TRUE, ops |-> [k \in 1..Len(ops) |-> <<ops[k], i + k - 1>>]]>>)
 MInner(X, Y) == GSumFn([r \in 1..NRows(X) |-> GSumFn([q \in 1..NCols(X) |-> GMul(GConj(X[r][q]), Y[r][q])], NCols(X))], NRows(X))
-QPrefactor == ~Big /\ \E s \in {"A", "B"} : Filled(s) /\ AllMarkers(s) /\ \E ops \in PrefStrings(cfg), i \in {0, 1} :
-    /\ (s = "B" => i = 1)
+QPrefactor == ~Big /\ \E s \in {"A"} : Filled(s) /\ AllMarkers(s) /\ \E ops \in PrefStrings(cfg), i \in {0, 1} :
     /\ i + Len(ops) <= NW(cfg) /\ i < NCell(cfg)
     /\ LET S == StringOp(cfg, i, ops)
        IN Step([op |-> "prefactor", s |-> s, i |-> i, ops |-> ops, num |-> MInner(S, Get(s).m), den |-> Re(MInner(S, S))], A, B)
 
 \* make_U_II is second order in dt for every direction of dt in the complex plane (real time, imaginary time with either
 \* sign, complex): the central difference (U_II(ph*h) - U_II(-ph*h)) / (2 ph h) equals H up to O(h^2); h = 2^-k
-QUIIOrder == ~Big /\ \E s \in {"A", "B"} : Filled(s) /\ AllMarkers(s) /\ Get(s).decls # <<>> /\ ~Infinite(cfg) /\
+QUIIOrder == ~Big /\ \E s \in {"A"} : Filled(s) /\ AllMarkers(s) /\ Get(s).decls # <<>> /\ ~Infinite(cfg) /\
     \E ph \in {<<-1, 0>>, <<0, -1>>, <<1, -1>>} : Step([op |-> "make_U_II_order", s |-> s, ph |-> ph, k |-> 6], A, B)
 
 Next == Setup \/ QPrefactor \/ QUIIOrder \/ Make \/ MakePair \/ Add \/ Dagger \/ PlusIdentity \/ Represent \/ QHermitian \/ QEqual \/ QOverlap \/ QExpect \/ QApply
